@@ -30,8 +30,16 @@ tvars == <<vars, l, stepped, cursor>>
 ProgOf(r) == [c \in Clients |-> IF c \in DOMAIN r.d.prog THEN r.d.prog[c] ELSE <<>>]
 FirstOf(r) == [t \in Threads |-> IF t \in DOMAIN r.d.first THEN r.d.first[t] ELSE 0]
 
+\* A delivery thread first takes an item from its channel and then calls the subscriber, whose
+\* scripted callback reads the store's state: two visible operations, which the specification has as
+\* one step (the read at the moment of the receive).  On free OS threads the read can be later than
+\* that, so the validator does not compare it there (tools/tracecheck.py replaces it by WRd after
+\* checking that it is not older than the state being delivered); controlled replays compare it.
+WRd == <<<<"?", 0>>>>
 Match(lb, r) == /\ lb.t = r.t /\ lb.ev = r.ev /\ lb.ans = r.ans
-                /\ lb.notes = r.notes /\ lb.d = r.d
+                /\ lb.notes = r.notes
+                /\ \/ lb.d = r.d
+                   \/ r.ev = "cb" /\ r.d.rd = WRd /\ [lb.d EXCEPT !.rd = WRd] = r.d
 
 TraceInit ==
     /\ NRec >= 1 /\ Rec[1].ev = "reset"
